@@ -163,6 +163,16 @@ def extra(binary, build, tier, rng):
                     pre.append("u32")
                 reqs.append("urange gen=%s seed=%d w=%d lo=%d hi=%d n=%d pre=%s" % (gen, rng.edge64(), w, bl, bh, 70 if gen.startswith("chacha") else 400, ",".join(pre)))
                 meta.append((w, lo, hi))
+    # Xoshiro256 has float paths of its own (the high bits of the `+` scrambler): states in which s0 + s3 is the word with all / almost all high
+    # bits set - the unit float just below 2 - and the smallest ones
+    for k in range(24 if tier == "quick" else 400):
+        word = [(1 << 64) - 1, ((1 << 64) - 1) ^ ((1 << 11) - 1), ((1 << 64) - 1) ^ ((1 << 40) - 1), (1 << 64) - (1 << 11), 0, 1 << 11, ((1 << 53) - 1) << 11, rng.u64() | (((1 << 24) - 1) << 40)][k % 8]
+        s0 = rng.u64()
+        st = [s0, rng.u64(), rng.u64(), (word - s0) % (1 << 64)]
+        w, lo, hi = ranges[k % len(ranges)]
+        bl, bh = (b64(lo), b64(hi)) if w == 64 else (b32(lo), b32(hi))
+        reqs.append("urange gen=xoshiro state=%s w=%d lo=%d hi=%d n=2 pre=" % (",".join(map(str, st)), w, bl, bh))
+        meta.append((w, lo, hi))
     rc, res, err = C.run_lines(binary, ["run"], reqs)
     for q, o, (w, lo, hi) in zip(reqs, res, meta):
         if not o.startswith("ok:"):
